@@ -70,33 +70,39 @@ def templates(tier, seed):
             {'set': 'imm', 'id': 'n', 'val': ('+', V('v1'), ('c', 1))}]})
 
     # ---- T4: indirect register (with +/- offset), indirect numeric, deferred numeric ---------------------------
-    osets = {'mem': {'operand_values': {
-        'ind_sp': {'type': 'indirect_register', 'register': 'sp', 'bytecode': code('c_sp', 3),
-                   'offset': {'size': 8, 'byte_align': True}},
-        'ind_ix': {'type': 'indirect_register', 'register': 'ix', 'bytecode': code('c_ix', 3)},
-        'ind_n': {'type': 'indirect_numeric', 'bytecode': code('c_in', 3), 'argument': arg(16, True, 'little')},
-        'def_n': {'type': 'deferred_numeric', 'bytecode': code('c_dn', 3), 'argument': arg(16, True)},
-        'imm': {'type': 'numeric', 'bytecode': code('c_im', 3), 'argument': arg(8, True)},
-    }}, 'regs': regs_set()}
-    ins = {'ld': {'bytecode': code('op', 5), 'operands': {'count': 2, 'operand_sets': {'list': ['regs', 'mem']}}}}
-    T4 = [('ld ra, [sp+v1]', {'id': 'ind_sp', 'val': V('v1')}, vrange(8)),
-          ('ld ra, [sp - v1]', {'id': 'ind_sp', 'val': ('neg', V('v1'))}, vrange(8)),
-          ('ld ra, [sp]', {'id': 'ind_sp', 'val': ('c', 0)}, None),
-          ('ld rb, [ix]', {'id': 'ind_ix'}, None),
-          ('ld rb, [v1]', {'id': 'ind_n', 'val': V('v1')}, vrange(16)),
-          ('ld rb, [ v1 + 2 ]', {'id': 'ind_n', 'val': ('+', V('v1'), ('c', 2))}, vrange(16)),
-          ('ld ra, [[v1]]', {'id': 'def_n', 'val': V('v1')}, vrange(16)),
-          ('ld ra, v1', {'id': 'imm', 'val': V('v1')}, vrange(8)),
-          ('ld ra, t1', {'id': 'imm', 'val': ('lsb', L('t1'))}, None)]
-    for i, (text, use, rng) in enumerate(T4):
-        if text == 'ld ra, t1':
-            text = 'ld ra, LSB(t1)'
-        cfg = isa(operand_sets=osets, instructions=ins, consts={'v1': rng} if rng else {})
-        u = dict(use)
-        u['set'] = 'mem'
-        add(f't4:{i}:{text}', cfg, {'mnemonic': 'ld', 'text': text,
-                                    'uses': [{'set': 'regs', 'id': text.split()[1].rstrip(',')}, u]},
-            expect=('ok', 'rejected') if rng else ('ok',))
+    # (the ISA default byte order x offset width: fields without an `endian` key of their own follow the default)
+    for ien, osz in (('big', 8), ('little', 16), ('little', 12), ('big', 16)):
+        tagx = '' if (ien, osz) == ('big', 8) else f'{ien[0]}{osz}:'
+        osets = {'mem': {'operand_values': {
+            'ind_sp': {'type': 'indirect_register', 'register': 'sp', 'bytecode': code('c_sp', 3),
+                       'offset': {'size': osz, 'byte_align': osz != 12}},
+            'ind_ix': {'type': 'indirect_register', 'register': 'ix', 'bytecode': code('c_ix', 3)},
+            'ind_n': {'type': 'indirect_numeric', 'bytecode': code('c_in', 3),
+                      'argument': arg(16, True, 'little') if not tagx else arg(16, True)},
+            'def_n': {'type': 'deferred_numeric', 'bytecode': code('c_dn', 3), 'argument': arg(16, True)},
+            'imm': {'type': 'numeric', 'bytecode': code('c_im', 3), 'argument': arg(8, True)},
+        }}, 'regs': regs_set()}
+        ins = {'ld': {'bytecode': code('op', 5), 'operands': {'count': 2, 'operand_sets': {'list': ['regs', 'mem']}}}}
+        T4 = [('ld ra, [sp+v1]', {'id': 'ind_sp', 'val': V('v1')}, vrange(osz)),
+              ('ld ra, [sp - v1]', {'id': 'ind_sp', 'val': ('neg', V('v1'))}, vrange(osz)),
+              ('ld ra, [sp]', {'id': 'ind_sp', 'val': ('c', 0)}, None),
+              ('ld rb, [ix]', {'id': 'ind_ix'}, None),
+              ('ld rb, [v1]', {'id': 'ind_n', 'val': V('v1')}, vrange(16)),
+              ('ld rb, [ v1 + 2 ]', {'id': 'ind_n', 'val': ('+', V('v1'), ('c', 2))}, vrange(16)),
+              ('ld ra, [[v1]]', {'id': 'def_n', 'val': V('v1')}, vrange(16)),
+              ('ld ra, v1', {'id': 'imm', 'val': V('v1')}, vrange(8)),
+              ('ld ra, t1', {'id': 'imm', 'val': ('lsb', L('t1'))}, None)]
+        for i, (text, use, rng) in enumerate(T4):
+            if tagx and (i in (2, 3, 5, 7, 8) or (tier == 'quick' and osz == 12 and i > 1) or (ien == 'big' and i > 1)):
+                continue
+            if text == 'ld ra, t1':
+                text = 'ld ra, LSB(t1)'
+            cfg = isa(general={'endian': ien}, operand_sets=osets, instructions=ins, consts={'v1': rng} if rng else {})
+            u = dict(use)
+            u['set'] = 'mem'
+            add(f't4:{tagx}{i}:{text}', cfg, {'mnemonic': 'ld', 'text': text,
+                                             'uses': [{'set': 'regs', 'id': text.split()[1].rstrip(',')}, u]},
+                expect=('ok', 'rejected') if rng else ('ok',))
 
     # ---- T5: enumeration / numeric enumeration / numeric bytecode ---------------------------------------------
     osets = {'cc': {'operand_values': {'cond': {'type': 'enumeration', 'bytecode': {'size': 3, 'value_dict': {
@@ -160,24 +166,28 @@ def templates(tier, seed):
             expect=('ok',) if rng is None else ('ok', 'rejected'))
 
     # ---- T7: indexed / indirect indexed registers ------------------------------------------------------------------
-    idx = {'ra': {'type': 'register', 'register': 'ra', 'bytecode': code('i_ra', 2)},
-           'rb': {'type': 'register', 'register': 'rb', 'bytecode': code('i_rb', 2)},
-           'off': {'type': 'numeric', 'bytecode': code('i_n', 2), 'argument': arg(8, True)}}
-    osets = {'idx': {'operand_values': {
-        'ix_i': {'type': 'indexed_register', 'register': 'ix', 'bytecode': code('c_ix', 2), 'index_operands': idx},
-        'sp_i': {'type': 'indirect_indexed_register', 'register': 'sp', 'bytecode': code('c_sp', 2), 'index_operands': idx}}},
-        'regs': regs_set()}
-    ins = {'lx': {'bytecode': code('op', 4), 'operands': {'count': 2, 'operand_sets': {'list': ['regs', 'idx']}}}}
-    T7 = [('lx ra, ix + rb', 'ix_i', 'rb', None, None), ('lx rb, ix+v1', 'ix_i', 'off', V('v1'), vrange(8)),
-          ('lx ra, [sp + ra]', 'sp_i', 'ra', None, None), ('lx rb, [sp + v1]', 'sp_i', 'off', V('v1'), vrange(8)),
-          ('lx rb, [ sp+v1+1 ]', 'sp_i', 'off', ('+', V('v1'), ('c', 1)), vrange(8))]
-    for i, (text, oid, iid, ival, rng) in enumerate(T7):
-        u = {'set': 'idx', 'id': oid, 'index_id': iid}
-        if ival is not None:
-            u['index_val'] = ival
-        add(f't7:{i}:{text}', isa(operand_sets=osets, instructions=ins, consts={'v1': rng} if rng else {}),
-            {'mnemonic': 'lx', 'text': text, 'uses': [{'set': 'regs', 'id': text.split()[1].rstrip(',')}, u]},
-            expect=('ok',) if rng is None else ('ok', 'rejected'))
+    for ien, isz in (('big', 8), ('little', 16), ('little', 12)):
+        tagx = '' if (ien, isz) == ('big', 8) else f'{ien[0]}{isz}:'
+        idx = {'ra': {'type': 'register', 'register': 'ra', 'bytecode': code('i_ra', 2)},
+               'rb': {'type': 'register', 'register': 'rb', 'bytecode': code('i_rb', 2)},
+               'off': {'type': 'numeric', 'bytecode': code('i_n', 2), 'argument': arg(isz, isz != 12)}}
+        osets = {'idx': {'operand_values': {
+            'ix_i': {'type': 'indexed_register', 'register': 'ix', 'bytecode': code('c_ix', 2), 'index_operands': idx},
+            'sp_i': {'type': 'indirect_indexed_register', 'register': 'sp', 'bytecode': code('c_sp', 2), 'index_operands': idx}}},
+            'regs': regs_set()}
+        ins = {'lx': {'bytecode': code('op', 4), 'operands': {'count': 2, 'operand_sets': {'list': ['regs', 'idx']}}}}
+        T7 = [('lx ra, ix + rb', 'ix_i', 'rb', None, None), ('lx rb, ix+v1', 'ix_i', 'off', V('v1'), vrange(isz)),
+              ('lx ra, [sp + ra]', 'sp_i', 'ra', None, None), ('lx rb, [sp + v1]', 'sp_i', 'off', V('v1'), vrange(isz)),
+              ('lx rb, [ sp+v1+1 ]', 'sp_i', 'off', ('+', V('v1'), ('c', 1)), vrange(isz))]
+        for i, (text, oid, iid, ival, rng) in enumerate(T7):
+            if tagx and (rng is None or (tier == 'quick' and i == 4)):
+                continue
+            u = {'set': 'idx', 'id': oid, 'index_id': iid}
+            if ival is not None:
+                u['index_val'] = ival
+            add(f't7:{tagx}{i}:{text}', isa(general={'endian': ien}, operand_sets=osets, instructions=ins, consts={'v1': rng} if rng else {}),
+                {'mnemonic': 'lx', 'text': text, 'uses': [{'set': 'regs', 'id': text.split()[1].rstrip(',')}, u]},
+                expect=('ok',) if rng is None else ('ok', 'rejected'))
 
     # ---- T8: specific operands, empty operand, variants -----------------------------------------------------------
     ins = {'push': {'bytecode': code('op0', 8), 'operands': {'count': 1, 'specific_operands': {
@@ -255,6 +265,22 @@ def _rand_operand(rnd, kind, tag, k):
                 return od, f'[{r}-{v}]', {'val': ('neg', V(v))}, {v: vrange(osz)}
             return od, f'[{r}]', {'val': ('c', 0)}, {}
         return od, f'[ {r} ]', {}, {}
+    if kind in ('indexed_register', 'indirect_indexed_register'):
+        r = rnd.choice(['sp', 'ix'])
+        isz = rnd.choice([4, 8, 12, 16])
+        ia = {'size': isz, 'byte_align': rnd.random() < 0.6}
+        if rnd.random() < 0.4:
+            ia['endian'] = rnd.choice(['big', 'little'])
+        idx = {'ir': {'type': 'register', 'register': 'ra', 'bytecode': code(f'{tag}_ir', 2)},
+               'off': {'type': 'numeric', 'bytecode': code(f'{tag}_in', 2), 'argument': ia}}
+        od = {'type': kind, 'register': r, 'bytecode': bc(), 'index_operands': idx}
+        if rnd.random() < 0.3:
+            text, use, cs = f'{r} + ra', {'index_id': 'ir'}, {}
+        else:
+            text, use, cs = f'{r}+{v}', {'index_id': 'off', 'index_val': V(v)}, {v: vrange(isz)}
+        if kind == 'indirect_indexed_register':
+            text = f'[{text}]'
+        return od, text, use, cs
     if kind == 'enumeration':
         keys = ['eq', 'ne', 'gt']
         key = rnd.choice(keys)
@@ -301,7 +327,8 @@ def _rand_operand(rnd, kind, tag, k):
 
 
 KIND_GROUPS = [['numeric', 'address', 'relative_address', 'numeric_bytecode', 'numeric_enumeration'],   # at most one per set
-               ['indirect_numeric'], ['deferred_numeric'], ['register'], ['indirect_register'], ['enumeration']]
+               ['indirect_numeric'], ['deferred_numeric'], ['register'], ['indirect_register'], ['enumeration'],
+               ['indexed_register'], ['indirect_indexed_register']]
 
 
 def random_isa(rnd, idx):
@@ -317,14 +344,27 @@ def random_isa(rnd, idx):
             members[f'm{gi}'] = od
             if chosen is None or rnd.random() < 0.4:
                 chosen = (f'm{gi}', text, use, cs)
-        # registers used twice in one set would be ambiguous: keep the first
+        # the same register form twice in one set would be ambiguous: keep the first (or the chosen one); `[r+v]` is
+        # both an indirect register with offset and an indirect indexed register, so those two share a key
         seen_regs = set()
         for mid in list(members):
             od = members[mid]
-            if od['type'] in ('register', 'indirect_register'):
-                keyr = (od['type'], od['register'])
+            if od['type'] in ('register', 'indirect_register', 'indexed_register', 'indirect_indexed_register'):
+                t = od['type']
+                if t == 'indirect_indexed_register' or (t == 'indirect_register' and 'offset' in od):
+                    t = 'indirect-with-offset'
+                keyr = (t, od['register'])
                 if keyr in seen_regs and mid != chosen[0]:
                     del members[mid]
+                    continue
+                if keyr in seen_regs and mid == chosen[0]:
+                    for other in list(members):
+                        o2 = members[other]
+                        t2 = o2['type']
+                        if t2 == 'indirect_indexed_register' or (t2 == 'indirect_register' and 'offset' in o2):
+                            t2 = 'indirect-with-offset'
+                        if other != mid and (t2, o2.get('register')) == keyr:
+                            del members[other]
                 seen_regs.add(keyr)
         osets[f'set{k}'] = {'operand_values': members}
         u = {'set': f'set{k}', 'id': chosen[0]}
